@@ -81,6 +81,8 @@ pub enum CoordClass {
     Dups,
     Collinear,
     Huge,
+    /// small magnitudes with points a few f32 ulps apart (distinct but nearly equal)
+    NearDup,
 }
 
 fn gen_coord(t: &mut Tape, class: CoordClass) -> (f32, f32) {
@@ -91,21 +93,28 @@ fn gen_coord(t: &mut Tape, class: CoordClass) -> (f32, f32) {
         CoordClass::Wide => (t.int(-4096, 4096) as f32, t.int(-4096, 4096) as f32),
         CoordClass::Collinear => (0.0, 0.0), // filled by the caller
         CoordClass::Huge => (t.int(-262144, 262144) as f32, t.int(-262144, 262144) as f32),
+        CoordClass::NearDup => (t.int(-2, 2) as f32, t.int(-2, 2) as f32),
     }
 }
 
 /// 1..=max_points control points with a type layout; the first point is typed
 /// (as the decoder always produces) except with low probability.
 pub fn gen_points(t: &mut Tape, max_points: usize, allow_huge: bool) -> (Vec<PathControlPoint>, CoordClass) {
+    gen_points_ex(t, max_points, allow_huge, false)
+}
+
+/// `allow_near`: also generate points that are distinct but only a few f32 ulps (>= 1e-8) apart
+pub fn gen_points_ex(t: &mut Tape, max_points: usize, allow_huge: bool, allow_near: bool) -> (Vec<PathControlPoint>, CoordClass) {
     let n = 1 + t.below(max_points);
-    let class = match t.weighted(&[3, 4, 3, 2, 2, 2, if allow_huge { 1 } else { 0 }]) {
+    let class = match t.weighted(&[3, 4, 3, 2, 2, 2, if allow_huge { 1 } else { 0 }, if allow_near { 1 } else { 0 }]) {
         0 => CoordClass::TinyGrid,
         1 => CoordClass::Screen,
         2 => CoordClass::Quarter,
         3 => CoordClass::Wide,
         4 => CoordClass::Dups,
         5 => CoordClass::Collinear,
-        _ => CoordClass::Huge,
+        6 => CoordClass::Huge,
+        _ => CoordClass::NearDup,
     };
     let mut pts: Vec<PathControlPoint> = Vec::with_capacity(n);
     let (bx, by) = (t.int(0, 512) as f32, t.int(0, 384) as f32);
@@ -113,6 +122,17 @@ pub fn gen_points(t: &mut Tape, max_points: usize, allow_huge: bool) -> (Vec<Pat
     for i in 0..n {
         let (x, y) = match class {
             CoordClass::Dups if i > 0 && t.chance(40) => (pts[i - 1].pos.x, pts[i - 1].pos.y),
+            CoordClass::NearDup if i > 0 && t.chance(50) => {
+                // the previous point moved by zero, one or a few f32 ulps / tiny offsets
+                let (px, py) = (pts[i - 1].pos.x, pts[i - 1].pos.y);
+                let d = *t.pick(&[0.0f32, 1e-8, 1e-7, 1.2e-7, 2.4e-7, 1e-6, -1e-7, 1e-5]);
+                // (differences are 0 or >= 1e-8: a difference whose square underflows in f32 is outside the domain)
+                if t.chance(50) || px == 0.0 {
+                    (px + d, py)
+                } else {
+                    (f32::from_bits(px.to_bits().wrapping_add(t.below(3) as u32)), py + d)
+                }
+            }
             CoordClass::Collinear => {
                 let k = t.int(-6, 6) as f32;
                 (bx + dx * k, by + dy * k)
@@ -131,6 +151,15 @@ pub fn gen_points(t: &mut Tape, max_points: usize, allow_huge: bool) -> (Vec<Pat
             None
         };
         pts.push(PathControlPoint { pos: Pos::new(x, y), path_type: ty });
+    }
+    // nearly coincident points make the f32 circumcircle of a perfect curve divide by ~0 (NaN path): that is
+    // the root cause of the known finding c17.huge_radius_arc_degenerates_to_chord, steered around here
+    if class == CoordClass::NearDup {
+        for p in pts.iter_mut() {
+            if p.path_type == Some(PathType::PERFECT_CURVE) {
+                p.path_type = Some(PathType::BEZIER);
+            }
+        }
     }
     // the decoder's lists are relative to the first point
     if t.chance(30) {
